@@ -47,6 +47,37 @@ func SpecSpace(quick bool, yield func(sp *Spec, family string)) {
 			}}, "empty_alternatives")
 		}
 	}
+	// 1c. two-level shapes beyond the node bound: an operand, a bracketed two-operand expression, an operand - for
+	// every bracket kind, both inner and both outer operators, with the bracket first, in the middle and last
+	c := &Str{Lexeme: "c"}
+	join := func(alt bool, ops ...Expr) Expr {
+		if alt {
+			return &Alt{Ops: ops}
+		}
+		return &Cat{Ops: ops}
+	}
+	for bi, br := range []func(Expr) Expr{
+		func(e Expr) Expr { return &Group{e} }, func(e Expr) Expr { return &Opt{e} },
+		func(e Expr) Expr { return &Star{e} }, func(e Expr) Expr { return &Plus{e} },
+	} {
+		for _, innerAlt := range []bool{false, true} {
+			for _, outerAlt := range []bool{false, true} {
+				inner := br(join(innerAlt, b, c))
+				inner3 := br(join(innerAlt, b, c, x))
+				for _, rhs := range []Expr{
+					join(outerAlt, a, inner), join(outerAlt, inner, a), join(outerAlt, a, inner, tk), join(outerAlt, a, tk, inner),
+					join(outerAlt, inner, inner3), join(outerAlt, a, inner3, tk),
+					join(outerAlt, a, br(join(innerAlt, b, br(join(!innerAlt, c, x))))),
+				} {
+					yield(&Spec{Name: "g", Decls: []Decl{
+						&TokenDecl{Name: "TK", Kind: DefString, Value: "t"},
+						&Rule{LHS: "x", RHS: &Str{Lexeme: "d"}},
+						&Rule{LHS: "start", RHS: rhs},
+					}}, fmt.Sprintf("two_level_bracket%d", bi))
+				}
+			}
+		}
+	}
 	// 2. declaration sequences
 	e := &NT{Name: "e"}
 	pool := func() []Decl {
